@@ -25,6 +25,7 @@ Inside an extract block the lines are annotation sub-directives:
    requires / ensures / decreases / recommends ... (contract text, spliced between signature and body; E2)
        a trailing `// [label]` names the clause (obligation name)
    @loop N            following lines: invariant/decreases text spliced before the N-th loop body (E3)
+   @sync-before <lit> / @sync-after <lit>   rule E16: insert `alias_sync(&mut x, &y);` (and nothing else) around a collaborator call
    @block-end <lit>   following lines: ghost text inserted before the closing brace of the block that opens after <lit>
    @loop-end N        following lines: ghost text inserted before the closing brace of the N-th loop's body
    @body              following lines: ghost text inserted right after the body's `{`
@@ -548,18 +549,23 @@ def parse_block(lines):
             ent = [s[len("@block-end "):].strip(), []]
             blk["blockends"].append(ent)
             cur = ent[1]
+        elif s.startswith("@sync-before ") or s.startswith("@sync-after "):
+            key = "before" if s.startswith("@sync-before ") else "after"
+            ent = [s.split(" ", 1)[1].strip(), [], "sync"]
+            blk[key].append(ent)
+            cur = ent[1]
         elif s.startswith("@after "):
             ent = [s[len("@after "):].strip(), []]
             blk["after"].append(ent)
             cur = ent[1]
-        elif s.startswith("@rewrite ") or s.startswith("@sig "):
-            key = "rewrites" if s.startswith("@rewrite ") else "sig"
+        elif s.startswith("@rewrite ") or s.startswith("@sig ") or s.startswith("@rewrite-all "):
+            key = "sig" if s.startswith("@sig ") else "rewrites"
             body = s.split(" ", 1)[1]
             sep = "==>>" if "==>>" in body else "=>"
             if sep not in body:
                 raise ExtractError("bad-template", f"rewrite without => : {s}")
             a, b = body.split(sep, 1)
-            blk[key].append({"from": a.strip(), "to": b.strip(), "reason": ""})
+            blk[key].append({"from": a.strip(), "to": b.strip(), "reason": "", "all": s.startswith("@rewrite-all ")})
             cur = None
         elif s.startswith("@reason "):
             tgt = blk["rewrites"] if blk["rewrites"] else blk["sig"]
@@ -581,13 +587,16 @@ def apply_rewrites(text, rewrites, log, what):
         pat = ws_pattern(rw["from"])
         # match on the original text but only at positions that are code in the mask
         hits = [h for h in pat.finditer(mask_comments(text)) if m[h.start()] == text[h.start()]]
-        if len(hits) != 1:
+        if rw.get("all"):
+            if not hits:
+                raise ExtractError("rewrite-miss", f"{what}: rewrite-all source `{rw['from']}` does not occur")
+        elif len(hits) != 1:
             raise ExtractError("rewrite-miss", f"{what}: rewrite source `{rw['from']}` occurs {len(hits)} times (expected 1)")
-        h = hits[0]
-        seg = text[h.start():h.end()]
-        repl = rw["to"].replace("\\n", "\x01") + "\n" * seg.count("\n")
-        text = text[:h.start()] + repl + text[h.end():]
-        log.append(f"REWRITE `{rw['from']}` => `{rw['to']}`" + (f" [{rw['reason']}]" if rw["reason"] else ""))
+        for h in reversed(hits):
+            seg = text[h.start():h.end()]
+            repl = rw["to"].replace("\\n", "\x01") + "\n" * seg.count("\n")
+            text = text[:h.start()] + repl + text[h.end():]
+        log.append(f"REWRITE{' (all %d sites)' % len(hits) if rw.get('all') else ''} `{rw['from']}` => `{rw['to']}`" + (f" [{rw['reason']}]" if rw["reason"] else ""))
     return text
 
 
@@ -643,6 +652,14 @@ def check_ghost(lines, what):
         return
     if not GHOST_OK.match(txt):
         raise ExtractError("bad-template", f"{what}: inserted text is not ghost-only: {txt[:60]}")
+
+
+def check_sync(lines, what):
+    """rule E16: the only executable statements that may be inserted are calls of the no-op `alias_sync`"""
+    for l in lines:
+        t = l.strip()
+        if t and not re.fullmatch(r"alias_sync\(&mut [A-Za-z_.]+, &[A-Za-z_.]+\);", t):
+            raise ExtractError("bad-template", f"{what}: @sync text must be alias_sync(&mut a.b, &c.d); got `{t}`")
 
 
 def labels_of(contract_lines):
@@ -723,8 +740,12 @@ def transform_fn(text, opts, blk, log, what, in_trait_impl):
             ins = "\x01".join(l.rstrip() for l in blk["loops"][n] if l.strip())
             body = body[:offs[n - 1]] + "\x01" + ins + "\x01" + body[offs[n - 1]:]
             log.append(f"E3 loop {n} invariant spliced")
-    for lit, lines in blk["before"]:
-        check_ghost(lines, what)
+    for ent in blk["before"]:
+        lit, lines = ent[0], ent[1]
+        if len(ent) > 2:
+            check_sync(lines, what)
+        else:
+            check_ghost(lines, what)
         pat = ws_pattern(lit)
         mb = mask(body)
         hits = [h for h in pat.finditer(mask_comments(body)) if mb[h.start()] == body[h.start()]]
@@ -748,8 +769,12 @@ def transform_fn(text, opts, blk, log, what, in_trait_impl):
         ins = "\x01".join(l.rstrip() for l in lines if l.strip())
         body = body[:e] + "\x01" + ins + "\x01" + body[e:]
         log.append(f"ghost text inserted at the end of the block after `{lit}`")
-    for lit, lines in blk["after"]:
-        check_ghost(lines, what)
+    for ent in blk["after"]:
+        lit, lines = ent[0], ent[1]
+        if len(ent) > 2:
+            check_sync(lines, what)
+        else:
+            check_ghost(lines, what)
         pat = ws_pattern(lit)
         mb = mask(body)
         hits = [h for h in pat.finditer(mask_comments(body)) if mb[h.start()] == body[h.start()]]
